@@ -6,6 +6,7 @@ import (
 	"fmt"
 
 	"github.com/tellor-io/layer/x/oracle/types"
+	regTypes "github.com/tellor-io/layer/x/registry/types"
 
 	errorsmod "cosmossdk.io/errors"
 
@@ -21,10 +22,29 @@ func (k msgServer) UpdateCyclelist(ctx context.Context, req *types.MsgUpdateCycl
 		return nil, errorsmod.Wrapf(types.ErrInvalidSigner, "invalid authority; expected %s, got %s", k.keeper.GetAuthority(), req.Authority)
 	}
 
+	// the end blocker indexes the list with the sequencer and initialises a query for every entry:
+	// an empty list or query data without a registered spec would make every following block fail
+	if len(req.Cyclelist) == 0 {
+		return nil, errorsmod.Wrap(types.ErrInvalidQueryData, "cyclelist cannot be empty")
+	}
+	for _, queryData := range req.Cyclelist {
+		queryType, _, err := regTypes.DecodeQueryType(queryData)
+		if err != nil {
+			return nil, errorsmod.Wrapf(types.ErrInvalidQueryData, "cyclelist query data not decodable: %v", err)
+		}
+		if _, err := k.keeper.GetDataSpec(ctx, queryType); err != nil {
+			return nil, errorsmod.Wrapf(types.ErrInvalidQueryData, "no data spec registered for cyclelist query type %s: %v", queryType, err)
+		}
+	}
+
 	if err := k.keeper.Cyclelist.Clear(ctx, nil); err != nil {
 		return nil, err
 	}
 	if err := k.keeper.InitCycleListQuery(ctx, req.Cyclelist); err != nil {
+		return nil, err
+	}
+	// the position in the replaced list means nothing in the new one (and may lie beyond its end)
+	if err := k.keeper.CyclelistSequencer.Set(ctx, 0); err != nil {
 		return nil, err
 	}
 	queries := make([]string, len(req.Cyclelist))
